@@ -130,6 +130,9 @@ type dropRule struct {
 	typ      qbft.MsgType
 	round    int64
 	from, to []bool
+	// delay > 0: the messages are not lost but arrive that much later (typically one or two rounds later:
+	// votes of an old round that complete a quorum after the member has moved on)
+	delay time.Duration
 }
 
 func (s *sim) leader(round int64) int64 { return (s.slotOff + round) % int64(s.n) }
@@ -334,6 +337,15 @@ func body(c *kernel.Ctx) {
 			for i := 0; i < s.n; i++ {
 				r.from[i] = allFrom || verifrt.Intn("cfg", 2) == 1
 				r.to[i] = verifrt.Intn("cfg", 2) == 1
+			}
+			if verifrt.Intn("cfg", 3) == 2 {
+				// late instead of lost: by 0.8 .. 3.3 s (round timeouts are 1 .. 2 s in the first rounds)
+				r.delay = time.Duration(800+verifrt.Intn("cfg", 2500)) * time.Millisecond
+				if verifrt.Intn("cfg", 2) == 1 {
+					for i := range r.to {
+						r.to[i] = true // towards everybody
+					}
+				}
 			}
 			s.rules = append(s.rules, r)
 		}
@@ -712,6 +724,11 @@ func (s *sim) send(from, to int, m msg) {
 	if s.mode != modeTimely {
 		for _, r := range s.rules {
 			if r.typ == m.typ && r.round == m.round && r.from[from] && r.to[to] {
+				if r.delay > 0 {
+					verifrt.Fault("rule-delay")
+					lat += r.delay
+					continue
+				}
 				verifrt.Fault("rule-drop")
 				return
 			}
